@@ -11,6 +11,8 @@ CONSTANTS
   MaxTouched = 3
   GenMaxMixed = 2
   GenWithRepeat = FALSE
+  MaxPasses = 1
+  ReKeys = {}
   AsCoded = TRUE
-INVARIANTS TypeOK Completeness SoundNonCancelling SingleFaultDetected BatchSplitIndependent OnlyGapIsCancelling
+INVARIANTS TypeOK ObjectsCurrent Completeness SoundNonCancelling SingleFaultDetected BatchSplitIndependent OnlyGapIsCancelling
 CHECK_DEADLOCK FALSE
